@@ -144,7 +144,7 @@ pub fn decode_c05(b: &[u8]) -> c05::Case {
     let mut ops = vec![];
     while r.left() > 0 && ops.len() < 3000 {
         let t = r.u8();
-        ops.push(c05::COp { target: [0u8, 1, 0, 1, 2][t as usize % 5], inp: r.inp(), reset: false });
+        ops.push(c05::COp { target: [0u8, 1, 0, 1, 2][t as usize % 5], inp: r.inp(), reset: t >= 240 });
     }
     let clone_at = if ops.is_empty() { 0 } else { clone_frac * ops.len() / 256 };
     let other = if ops.len() % 2 == 0 { Some(r2_cfg(b)) } else { None };
